@@ -26,8 +26,8 @@ CHECKS = {
    ref="5/C04"),
  "C05": dict(
    technique="runtime monitoring: round-trip differential on stores reached by seeded histories - canonical observation (incl. every reverse lookup) of original vs reloaded store, byte identity of the second write - under pretty/compact inline output and stand-off (@include) resources and datasets",
-   text="Final states of seeded histories with removals (gaps), id-less annotations/data, all selector kinds and value types and hostile Unicode ids are written to STAM JSON and read back under four output variants; the reloaded store must be observationally identical (items, ids or their absence, order, selector kinds, referenced items, ranges and alignment, typed values, reverse lookups) and writing it again must reproduce the first output (all files for stand-off variants). Held on the stores observed.",
-   note="Trusted: obs.rs canonical observation; orphan text selections (used by no annotation) are not part of the model and are ignored; sub-stores are not yet exercised by this check.",
+   text="Final states of seeded histories with removals (gaps), id-less annotations/data, all selector kinds and value types and hostile Unicode ids are written to STAM JSON and read back under six variants (inline pretty and compact, stand-off members, incremental save of stand-off members, one level of sub-stores); the reloaded store must be observationally identical (items, ids or their absence, order, selector kinds, referenced items, ranges and alignment, typed values, reverse lookups) and writing it again must reproduce the first output (all files for stand-off variants). Held on the stores observed.",
+   note="Trusted: obs.rs canonical observation; orphan text selections (used by no annotation) are not part of the model and are ignored. Variants: inline pretty/compact, stand-off resources (.txt/.json) and datasets, save - change - save again on stand-off stores, and one level of sub-stores (a store included into a main store that adds items of its own; membership of annotations, resources and datasets per sub-store is compared too).",
    ref="5/C05"),
  "C14": dict(
    technique="runtime monitoring: before/after snapshot oracle around requests that the shadow model says must be refused (canonical observation with handles and every reverse lookup, search answers, hooked dump of all stores and indices), then the corrected request against a twin store replayed without the failure",
